@@ -379,7 +379,8 @@ class MTVRPGenerator(Generator):
         service_time = a + (b - a) * torch.rand(batch_size, n_loc)
         tw_length = b + (c - b) * torch.rand(batch_size, n_loc)
         d_0i = get_distance(locs[:, 0:1], locs[:, 1:])
-        h_max = (self.max_time - service_time - tw_length) / d_0i * speed - 1
+        # a customer may coincide with the depot (d_0i == 0): avoid 0/0 = nan time windows
+        h_max = (self.max_time - service_time - tw_length) / d_0i.clamp(min=1e-9) * speed - 1
         tw_start = (1 + (h_max - 1) * torch.rand(batch_size, n_loc)) * d_0i / speed
         tw_end = tw_start + tw_length
 
